@@ -126,6 +126,19 @@ Pool == <<
   << <<T(<<10>>), Ob(XWhere(Var(AA), Z, DivZero))>>, <<T(<<10>>), Ob(DivZero)>> >>,
   (* 28 a tag that hands back, wrapped, a located error of another template's render: located here *)
   << <<T(<<10, 10>>), If(Lit(Bool(TRUE)), <<T(<<10>>), [t |-> "xsub"]>>)>>, <<T(<<10, 10>>), If(Lit(Bool(TRUE)), <<T(<<10>>), Ob(DivZero)>>)>> >>,
+  (* 29 ExpandTagArg when the arguments are one object and nothing else, hyphens inside it *)
+  << <<T(<<112, 32, 32>>), [t |-> "xexpand", body |-> <<TL, Ob(Var(X)), TR>>], T(<<32, 32, 113>>), [t |-> "xexpand", body |-> <<Ob(Lit(IntV(5))), TR>>]>>,
+     <<T(<<112, 32, 32>>), Ob(Var(X)), T(<<32, 32, 113>>), Ob(Lit(IntV(5)))>> >>,
+  (* 30 a tag that reads the loop state through the context (the body says "forloop" nowhere): for, tablerow, nested, outside *)
+  << <<For(I, R13, <<[t |-> "xloopidx"], T(<<32>>)>>), [t |-> "xloopidx"],
+       For(I, R13, <<[t |-> "for", tag |-> "tablerow", var |-> Z, coll |-> Var(AA), cols |-> Lit(IntV(2)), body |-> <<[t |-> "xloopidx"]>>]>>)>>,
+     <<For(I, R13, <<Ob(P(Var(B_forloop), B_index)), T(<<47>>), Ob(P(Var(B_forloop), B_length)), T(<<32>>)>>), T(<<45>>),
+       For(I, R13, <<[t |-> "for", tag |-> "tablerow", var |-> Z, coll |-> Var(AA), cols |-> Lit(IntV(2)),
+                      body |-> <<Ob(P(Var(B_forloop), B_index)), T(<<47>>), Ob(P(Var(B_forloop), B_length))>>]>>)>> >>,
+  (* 31 a filter declared with a typed slice parameter: converted element by element; an element that does not convert
+        is the object's error *)
+  << <<Ob(Fl(Var(AA), "lqx_sum", <<>>)), T(<<10>>), Ob(Fl(Fl(Lit(Str(<<97, 44, 98>>)), "split", <<Lit(Str(<<44>>))>>), "lqx_sum", <<>>))>>,
+     <<T(<<54, 10>>), Ob(DivZero)>> >>,
   (* 24 the probe: what the statements before left behind *)
   << <<T(<<59>>), Ob(Var(X)), T(<<44>>), Ob(Var(V)), T(<<44>>), Ob(Var(Z)), T(<<44>>), Ob(Var(PP)), T(<<59>>)>>,
      <<T(<<59>>), Ob(Var(X)), T(<<44>>), Ob(Var(V)), T(<<44>>), Ob(Var(Z)), T(<<44>>), Ob(Var(PP)), T(<<59>>)>> >>
